@@ -795,6 +795,27 @@ func (c *Config) getEKCertificate(clientHello *ClientHelloInfo) (*Certificate, e
 	return nil, errors.New("tls: no key exchange (encrypt) certificate configured")
 }
 
+// getGMSignCertificate returns the signing certificate of a GMSSL handshake whose certificates are looked up per
+// connection (auto-switch mode). It is getCertificate without the lookup of the server name in NameToCertificate:
+// the signing and the encryption certificate of a GM/T 0024 pair carry the same names, so that map cannot tell them
+// apart (BuildNameToCertificate lets the later one, the encryption certificate, win).
+func (c *Config) getGMSignCertificate(clientHello *ClientHelloInfo) (*Certificate, error) {
+	if c.GetCertificate != nil &&
+		(len(c.Certificates) == 0 || len(clientHello.ServerName) > 0) {
+		cert, err := c.GetCertificate(clientHello)
+		if cert != nil || err != nil {
+			return cert, err
+		}
+	}
+
+	if len(c.Certificates) == 0 {
+		return nil, errors.New("tls: no certificates configured")
+	}
+
+	// the first certificate is the signing certificate, the second the encryption certificate
+	return &c.Certificates[0], nil
+}
+
 // getCertificate returns the best certificate for the given ClientHelloInfo,
 // defaulting to the first element of c.Certificates.
 func (c *Config) getCertificate(clientHello *ClientHelloInfo) (*Certificate, error) {
